@@ -192,8 +192,8 @@ theorem shapeS_samplesMain (c : Ctx) (q : LogQuery) : shapeS (samplesMain c q) =
 theorem shapeE_secLit (d : Nat) : shapeE (secLit d) = secLit d := by simp [secLit, shapeE]
 theorem shapeE_bucketCol (src : String) (d : Int) : shapeE (bucketCol src d) = bucketCol src d := by
   simp [bucketCol, shapeE, shapeEs]
-theorem shapeE_lraValue (fn : RangeFn) (d : Nat) : shapeE (lraValue fn (secLit d)) = lraValue fn (secLit d) := by
-  cases fn <;> simp [lraValue, countF, bytesF, secLit, shapeE, shapeEs]
+theorem shapeE_lraValue (fn : RangeFn) (d : Nat) : shapeE (lraValue fn (.int d)) = lraValue fn (.int d) := by
+  cases fn <;> simp [lraValue, perSecond, countF, bytesF, shapeE, shapeEs]
 theorem shapeE_emptyStr : shapeE emptyStr = emptyStr := by simp [emptyStr, shapeE]
 
 theorem shapeS_lraSel (fn : RangeFn) (d : Nat) (wl : Bool) (main : Sel) :
@@ -238,8 +238,8 @@ theorem shapeS_byWithoutTS (c : Ctx) (id : Nat) (g : Grouping) (main main' : Sel
     have : g.skel.skel = g.skel := by simp [Grouping.skel, List.map_map, Function.comp_def]
     rw [this]
 
-theorem shapeE_unwrapValue (fn : UnwrapFn) (d : Nat) : shapeE (unwrapValue fn (secLit d)) = unwrapValue fn (secLit d) := by
-  cases fn <;> simp [unwrapValue, secLit, shapeE, shapeEs]
+theorem shapeE_unwrapValue (fn : UnwrapFn) (d : Nat) : shapeE (unwrapValue fn (.int d)) = unwrapValue fn (.int d) := by
+  cases fn <;> simp [unwrapValue, perSecond, shapeE, shapeEs]
 
 theorem shapeS_unwrapFnSel (fn : UnwrapFn) (d : Nat) (main : Sel) : shapeS (unwrapFnSel fn d main) = unwrapFnSel fn d (shapeS main) := by
   unfold unwrapFnSel
@@ -365,7 +365,7 @@ theorem matrixLabels_skel (q : MetricQuery) : matrixLabels q.skel = matrixLabels
   rw [rangeAgg_skel, isUnwrap_skel, takesShortcut_skel, agg?_skel]
   cases q.agg? with
   | none => rfl
-  | some a => simp [grouped_skel]
+  | some a => simp
 
 def Step.skel : Step → Step
   | .unwrapFn fn d g => .unwrapFn fn d (g.map Grouping.skel)
@@ -375,6 +375,13 @@ def Step.skel : Step → Step
 theorem chosenGrouping_skel (p s : Option Grouping) :
     chosenGrouping (p.map Grouping.skel) (s.map Grouping.skel) = (chosenGrouping p s).map Grouping.skel := by
   cases p <;> cases s <;> rfl
+
+/-- `planAgg`'s grouping (none written = `by ()`) of the skeleton is the skeleton of the grouping -/
+theorem aggGrouping_skel (a : VecAgg) : aggGrouping a.skel = (aggGrouping a).skel := by
+  unfold aggGrouping
+  rw [show a.skel.byPrefix = a.byPrefix.map Grouping.skel from rfl, show a.skel.bySuffix = a.bySuffix.map Grouping.skel from rfl,
+    chosenGrouping_skel]
+  cases chosenGrouping a.byPrefix a.bySuffix <;> simp [Grouping.skel]
 
 theorem cmpStep_skel (c : Option Comparison) : (cmpStep c).map Step.skel = cmpStep c := by cases c <;> rfl
 
@@ -394,13 +401,13 @@ theorem orderAgg_skel (a : VecAgg) : orderAgg a.skel = (orderAgg a).map Step.ske
   unfold orderAgg
   simp only [List.map_append, List.map_cons, List.map_nil]
   rw [show a.skel.inner = a.inner.skel from rfl, orderRange_skel, show a.skel.cmp = a.cmp from rfl, cmpStep_skel]
-  simp [VecAgg.skel, Step.skel, chosenGrouping_skel]
+  simp [show a.skel.fn = a.fn from rfl, Step.skel, aggGrouping_skel]
 
 theorem shortcutAgg_skel (a : VecAgg) : shortcutAgg a.skel = (shortcutAgg a).map Step.skel := by
   unfold shortcutAgg
   simp only [List.map_append, List.map_cons, List.map_nil]
   rw [show a.skel.inner = a.inner.skel from rfl, shortcutRange_skel, show a.skel.cmp = a.cmp from rfl, cmpStep_skel]
-  simp [VecAgg.skel, Step.skel, chosenGrouping_skel]
+  simp [show a.skel.fn = a.fn from rfl, Step.skel, aggGrouping_skel]
 
 theorem functionOrder_skel (q : MetricQuery) : functionOrder q.skel = (functionOrder q).map Step.skel := by
   cases q with
